@@ -22,16 +22,20 @@ Definition declared_entries (groups : list group) (filters : list flt) (us : lis
     | _, _ => []
     end) us.
 
-Definition undeclarable (groups : list group) (u : ufeat) : bool :=
-  match declared_type groups u with None => true | Some _ => false end.
-
+(* which prepare-time error a request ends in (api_conflict, prepare_error: Model/ValidateSet.v) does not depend on links, indexes or
+   filters either *)
 Definition spec_request (strict lenient : dtype -> dtype -> bool) groups filters (api : bool) (rs : list rfeat) (cols : columns)
   : req_outcome :=
-  match flatten api rs with
-  | None => QOptConflict
-  | Some us =>
-    if existsb (undeclarable groups) us then QReject
-    else if run_mismatch strict lenient cols (declared_entries groups filters us) then QMismatch else QOk
+  if api_conflict api rs then QOptConflict else
+  match prepare_error groups api rs with
+  | Some o => o
+  | None =>
+    match flatten api rs with
+    | None => QOptConflict
+    | Some us =>
+      if existsb (undeclarable groups) us then QReject
+      else if run_mismatch strict lenient cols (declared_entries groups filters us) then QMismatch else QOk
+    end
   end.
 
 (* ---- checkers ---- *)
@@ -80,4 +84,26 @@ Definition chk_links_spec (c : link_case) : bool :=
       | _ => is_nil (lc_entries c)
       end
     end
+  end.
+
+(* ---- known-defect domain (known_findings.json: C17-two-declared-types-on-a-joined-root-rejected).  Outside this model: features of
+   one feature group with different declared types become separate steps (Feature.similarity_key contains the data type); when that
+   group is one side of a Link that is needed for a join, the planner refuses the request ("more than one solution for the join")
+   although every declaration is honoured.  Decidable domain: some group on a link side has two user features whose resulting
+   declarations are different types. ---- *)
+Definition on_link_side (links : option (list link)) (g : nat) : bool :=
+  match links with None => false | Some ks => existsb (fun k => Nat.eqb (k_lg k) g || Nat.eqb (k_rg k) g) ks end.
+Definition two_declared_types (groups : list group) (us : list ufeat) (g : nat) : bool :=
+  existsb (fun u => existsb (fun v =>
+    Nat.eqb (u_group u) g && Nat.eqb (u_group v) g &&
+    match declared_type groups u, declared_type groups v with
+    | Some (Some a), Some (Some b) => negb (dtype_eqb a b)
+    | _, _ => false
+    end) us) us.
+Definition kf_split_joined_root (groups : list group) (links : option (list link)) (us : list ufeat) : bool :=
+  existsb (fun g => on_link_side links g && two_declared_types groups us g) (seq 0 (List.length groups)).
+Definition in_kf_split_domain (c : link_case) : bool :=
+  match flatten (lc_api c) (lc_req c) with
+  | Some us => kf_split_joined_root (lc_groups c) (lc_links c) us
+  | None => false
   end.
